@@ -10,12 +10,12 @@ import (
 
 func init() {
 	register(&Property{
-		ID:        "C02",
-		Title:     "Access cookies are accepted only if gateway-minted, unexpired and IdP-valid",
-		DesignRef: "DESIGN.md §3 C02",
-		Technique: "checked must-pass-through chain (edge-cut reachability on go/ssa) + SSA value origin + who-may-call/write inventory",
-		LevelText: "Static: on every path of security.CheckPAACookie to an accepting return, the HS256-only parse, the MAC check under SigningKey, issuer/expiry validation against time.Now and the IdP UserInfo call each gate the exit with their error tested; the mint side uses the same key, algorithm, issuer and a constant lifetime <= 5 min behind a key-length guard; no verification-bypass API or foreign SigningKey writer exists; the packet loop answers a refused cookie with E_PROXY_COOKIE_AUTHENTICATION_ACCESS_DENIED and ends. Decides the structural chain, not go-jose's cryptography or the IdP.",
-		LevelNote: "Trusted: go-jose (ParseSigned allow-list, Claims verifies the MAC, Validate checks iss/exp/nbf with 1 min leeway), go-oidc UserInfo, go/ssa construction. Not decided: behaviour for every forged string (cryptographic), what the IdP answers.",
+		ID:          "C02",
+		Title:       "Access cookies are accepted only if gateway-minted, unexpired and IdP-valid",
+		DesignRef:   "DESIGN.md §3 C02",
+		Technique:   "checked must-pass-through chain (edge-cut reachability on go/ssa) + SSA value origin + who-may-call/write inventory",
+		LevelText:   "Static: on every path of security.CheckPAACookie to an accepting return, the HS256-only parse, the MAC check under SigningKey, issuer/expiry validation against time.Now and the IdP UserInfo call each gate the exit with their error tested; the mint side uses the same key, algorithm, issuer and a constant lifetime <= 5 min behind a key-length guard; no verification-bypass API or foreign SigningKey writer exists; the packet loop answers a refused cookie with E_PROXY_COOKIE_AUTHENTICATION_ACCESS_DENIED and ends. Decides the structural chain, not go-jose's cryptography or the IdP.",
+		LevelNote:   "Trusted: go-jose (ParseSigned allow-list, Claims verifies the MAC, Validate checks iss/exp/nbf with 1 min leeway), go-oidc UserInfo, go/ssa construction. Not decided: behaviour for every forged string (cryptographic), what the IdP answers.",
 		Explanation: "For security.CheckPAACookie every return whose first result is not the constant false must be reachable only over the success edges of ParseSigned({HS256}) -> Claims(SigningKey,&standard,&custom) -> Validate(Expected{Issuer: const, Time: time.Now()}) -> OIDCProvider.UserInfo(token source built from custom.AccessToken); argument shapes are checked on SSA values. GeneratePAAToken must sign with HS256 under the same variable, the same issuer constant, expiry time.Now().Add(const<=5m), behind len(SigningKey)>=32. Whole-program inventory: no UnsafeClaimsWithoutVerification, every jose/jwt Parse* call has a constant allow-list from the frozen set, SigningKey written only by main. The typestate model of Process gives the refusal status.",
 		Assumptions: []string{
 			"go-jose v4: jwt.ParseSigned rejects algorithms outside the list; (*JSONWebToken).Claims(key, ...) verifies the signature before filling the destinations; Claims.Validate checks issuer and expiry",
